@@ -21,6 +21,8 @@ DRIVER = "props/C12/driver.ml"
 PROGS = {"c12sim": ["props/C12/unit.cpp"]}
 NPERM = 24          # permutations handed to the executors are permutations of range(NPERM) (>= number of items)
 
+if os.environ.get("C12_COV"):      # coverage measurement of the anchored functions (scratch VERIF_BUILD only)
+    V.CXX_VARIANTS["plain"] = ["-O0", "-g0", "--coverage"]
 V.CXX_VARIANTS.setdefault("tsan", ["-O1", "-g", "-fsanitize=thread", "-fno-omit-frame-pointer"])
 
 
@@ -34,10 +36,22 @@ def lcm(a, b):
 
 def gen_tcase(r, k):
     nv = r.choice([1, 1, 2, 2, 3, 4])
+    many = r.random() < 0.12          # a variable with many components (items-per-thread distribution); total <= NPERM
+    if many:
+        nv = r.choice([1, 2])
     vars_ = []
     for v in range(nv):
-        nc = r.choice([1, 2, 3, 3, 4])
-        vars_.append({"tsf": r.choice([1, 1, 1, 1, 2, 3]), "coeff": [r.choice([1, 1, 2, -1, 3]) for _ in range(nc)]})
+        nc = r.choice([8, 10, 12]) if (many and v == 0) else r.choice([1, 2, 3, 3, 4])
+        x = {"tsf": r.choice([1, 1, 1, 1, 2, 3]), "coeff": [r.choice([1, 1, 2, -1, 3]) for _ in range(nc)]}
+        if nc <= 2 and r.random() < 0.3:
+            # polynomial combination (componentExp 2) on unit coefficients: keeps every energy below 2^53 (exact in doubles)
+            x["coeff"] = [r.choice([1, -1]) for _ in range(nc)]
+            x["exp"] = [r.choice([1, 2]) for _ in range(nc)]
+        elif nc <= 3 and r.random() < 0.15:
+            # scripted variable (scriptedFunction vsum): the callback receives EVERY component value, enabled or not
+            x["coeff"] = [1] * nc
+            x["scripted"] = True
+        vars_.append(x)
     biases = []
     own = []
     for v in range(nv):
@@ -87,8 +101,9 @@ def gen_tcase(r, k):
         nt = r.choice([1, 1, 2, 2, 3, 4, 8])
         assign = [r.randrange(nt) for _ in range(NPERM)] if r.random() < 0.5 else []
         steps.append({"flags": fs, "z": z, "perm": perm, "nt": nt, "assign": assign})
+    smp = r.choice(["perm", "perm", "omp", "omp"])
     return {"id": k, "vars": vars_, "biases": biases, "use_script": use_script, "after": after, "script": script,
-            "steps": steps, "smp": r.choice(["perm", "perm", "perm", "omp"])}
+            "steps": steps, "smp": smp, "smpkey": r.choice([None, "cvcs", "off", "inner_loop"]) if smp == "omp" else None}
 
 
 def tcase_config(c):
@@ -98,9 +113,11 @@ def tcase_config(c):
         L += ["colvar {", "  name v%d" % v]
         if x["tsf"] > 1:
             L += ["  timeStepFactor %d" % x["tsf"]]
+        if x.get("scripted"):
+            L += ["  scriptedFunction vsum"]
         for i, co in enumerate(x["coeff"]):
             atom += 1
-            L += ["  distanceZ {", "    name c%d" % i, "    componentCoeff %d" % co,
+            L += ["  distanceZ {", "    name c%d" % i, "    componentCoeff %d" % co] + (["    componentExp %d" % x["exp"][i]] if x.get("exp") and x["exp"][i] != 1 else []) + [
                   "    main { atomNumbers %d }" % atom, "    ref { dummyAtom (0,0,0) }", "    axis (0,0,1)", "  }"]
         L += ["}"]
     for b, x in enumerate(c["biases"]):
@@ -122,7 +139,8 @@ def tcase_scenario(c, smp):
     L = ["natoms %d" % natoms]
     if c["use_script"]:
         L += ["forcescript " + " ".join("v%d %d" % (v, f) for v, f in c["script"])]
-    L += ["smp %s 1" % smp, "new", "config EOF"] + tcase_config(c) + ["EOF", "show items 1 af 1"]
+    key = ["smp %s" % c["smpkey"]] if (smp == "omp" and c.get("smpkey")) else []     # the library's mode keyword (cvcs | inner_loop | off)
+    L += ["smp %s 1" % smp, "new", "config EOF"] + key + tcase_config(c) + ["EOF", "show items 1 af 1"]
     for st in c["steps"]:
         for v, f in st["flags"]:
             L += ['scriptq cv colvar v%d cvcflags "%s"' % (v, " ".join(map(str, f)))]
@@ -141,7 +159,7 @@ def tcase_scenario(c, smp):
 def tcase_model_line(c, mode):
     P = ["CASE", mode, str(len(c["vars"]))]
     for x in c["vars"]:
-        P += [str(x["tsf"]), str(len(x["coeff"]))] + [str(q) for q in x["coeff"]]
+        P += [str(x["tsf"]), str(len(x["coeff"]))] + [str(q) for q in x["coeff"]] + [str(q) for q in x.get("exp", [1] * len(x["coeff"]))] + ["1" if x.get("scripted") else "0"]
     P += [str(len(c["biases"]))]
     for x in c["biases"]:
         P += [str(x["tsf"]), str(len(x["vars"]))] + [str(v) for v in x["vars"]] + [str(x["k"])] + [str(q) for q in x["centers"]]
@@ -195,6 +213,8 @@ def parse_steps(lines):
             cur["items"] = w[1:]
         elif w[0] == "BITEMS":
             cur["bitems"] = w[1:]
+        elif w[0] == "ITHREADS":
+            cur["ithreads"] = [int(t) for t in w[1:]]
         elif w[0] == "CV":
             cur["cv"][w[1]] = [float.fromhex(t) for t in w[2:]]
         elif w[0] == "AF":
@@ -274,7 +294,7 @@ def disabled_before_enabled(c, upto):
 
 
 def strip_items(lines):
-    return [l for l in lines if not (l.startswith("ITEMS") or l.startswith("BITEMS"))]
+    return [l for l in lines if not (l.startswith("ITEMS") or l.startswith("BITEMS") or l.startswith("ITHREADS"))]
 
 
 def first_diff(a, b):
@@ -306,13 +326,17 @@ def tie_part(run, r, model, sim, cases, d):
     for c in cases:
         scen_smp += tcase_scenario(c, c["smp"])
         scen_ser += tcase_scenario(c, "serial")
-    env = {"OMP_NUM_THREADS": str(r.choice([2, 3, 4]))}
+    nto = r.choice([2, 3, 4])
+    env = {"OMP_NUM_THREADS": str(nto), "OMP_DYNAMIC": "false"}
     rc1, o1, e1 = run_batch(sim, scen_smp, d, env)
     rc2, o2, e2 = run_batch(sim, scen_ser, d, env)
     by_smp, by_ser = split_cases(o1), split_cases(o2)
     mlines = [tcase_model_line(c, "smp") for c in cases] + [tcase_model_line(c, "serial") for c in cases]
     rcm, mout, em = V.run_lines(model, mlines)
     n = len(cases)
+    # the model's OpenMP static schedule for every item count that can occur
+    rco, oout, eo = V.run_lines(model, ["OMPSTATIC %d %d" % (k, nto) for k in range(NPERM + 1)])
+    omp_model = {k: [int(t) for t in l.split()[1:]] for k, l in enumerate(oout)}
     for k, c in enumerate(cases):
         key = json.dumps({q: c[q] for q in ("vars", "biases", "use_script", "after", "script")}, sort_keys=True) + str(len(c["steps"]))
         ls, lser = by_smp.get(c["id"]), by_ser.get(c["id"])
@@ -364,8 +388,29 @@ def tie_part(run, r, model, sim, cases, d):
                           "step %d: `%s` under schedule %s (threads %s, perm %s) but `%s` under smp serial; config:\n%s" % (
                               t, df[1], c["smp"], c["steps"][max(t, 0)]["nt"], c["steps"][max(t, 0)]["perm"][:8], df[2],
                               "\n".join(tcase_config(c))), rep)
+        # --- mode keyword and distribution of the items over the OpenMP threads
+        if c["smp"] == "omp":
+            serial_mode = c.get("smpkey") in ("off", "inner_loop")
+            run.dist("T:library mode keyword smp %s" % (c.get("smpkey") or "(default)"))
+            for t, st in enumerate(isteps):
+                if st["err"] != "ok":
+                    break
+                if serial_mode:
+                    if st["items"] is not None or st["bitems"] is not None:
+                        run.violation("mode:parallel-loop-in-serial-mode", "configuration keyword `smp %s` but the module ran a parallel loop at step %d (ITEMS %s, BITEMS %s)" % (
+                            c["smpkey"], t, st["items"], st["bitems"]), rep)
+                        break
+                elif st["items"]:
+                    got = st.get("ithreads")
+                    want = omp_model.get(len(st["items"]))
+                    run.dist("T:OpenMP item distributions compared")
+                    if got != want:
+                        run.mismatch("omp-distribution:smp-vs-serial", {"case": c, "step": t, "threads": nto, "items": len(st["items"])}, got, want)
+                        break
         # --- tie: implementation (under the schedule) vs model, and serial implementation vs serial model
-        for which, steps_i, mo in (("smp", isteps, mout[k] if k < len(mout) else ""), ("serial", ssteps, mout[n + k] if n + k < len(mout) else "")):
+        lib_serial = c["smp"] == "omp" and c.get("smpkey") in ("off", "inner_loop")     # the library itself takes the serial path
+        for which, steps_i, mo in (("smp", isteps, mout[n + k if lib_serial else k] if (n + k if lib_serial else k) < len(mout) else ""),
+                                   ("serial", ssteps, mout[n + k] if n + k < len(mout) else "")):
             ms = parse_model(mo)
             for t in range(len(c["steps"])):
                 if t >= len(ms):
@@ -375,7 +420,7 @@ def tie_part(run, r, model, sim, cases, d):
                     break
                 ic = impl_canonical(c, steps_i[t], t)
                 mc = ms[t]
-                if which == "serial":
+                if which == "serial" or (c["smp"] == "omp" and c.get("smpkey") in ("off", "inner_loop")):
                     ic.pop("ITEMS", None); ic.pop("BITEMS", None); mc = dict(mc); mc.pop("ITEMS", None); mc.pop("BITEMS", None)
                 if ic.get("err") == "1" or mc.get("err") == "1":
                     if ic.get("err") != mc.get("err"):
@@ -542,7 +587,14 @@ def gen_rcase(r, k):
         ef = [[V.dyadic(r, -2, 2, bits=3) for _ in range(3)] for _ in range(natoms)]
         steps.append({"pos": [list(q) for q in p], "eforce": ef, "flags": fs, "perm": perm, "nt": nt,
                       "assign": [r.randrange(nt) for _ in range(NPERM)] if r.random() < 0.5 else []})
-    return {"id": k, "natoms": natoms, "vars": vars_, "biases": biases, "use_script": use_script, "script": script, "steps": steps,
+    # atomic gradients collected inside the variable (colvar::collect_cvc_gradients), switched on by script for a plain scalar variable
+    cg = r.choice(scalar) if (scalar and r.random() < 0.3) else None
+    rf = r.choice([0, 0, 2, 3])
+    if rf:
+        for b in biases:
+            if b["kind"] in ("meta", "abf", "histogram") and r.random() < 0.6:
+                b["lines"].insert(2, "  outputFreq %d" % rf)
+    return {"id": k, "natoms": natoms, "restartfreq": rf, "collect_gradient": cg, "vars": vars_, "biases": biases, "use_script": use_script, "script": script, "steps": steps,
             "smp": r.choice(["perm", "perm", "perm", "omp"]), "binary": r.random() < 0.3}
 
 
@@ -560,7 +612,10 @@ def rcase_config(c):
 def rcase_scenario(c, smp, tag):
     L = ["natoms %d" % c["natoms"], "temperature 300", "dt 1", "gauss 0.25 -0.5 0.125 1.0 -0.75"]
     L += ["forcescript " + " ".join("v%d %s" % (v, V.hexf(f)) for v, f in c["script"])] if c["use_script"] else ["forcescript"]
-    L += ["prefix %s" % tag, "smp %s 1" % smp, "new", "log %s.log" % tag, "config EOF"] + [l.replace("@TAG@", tag) for l in rcase_config(c)] + ["EOF", "setupoutput", "show items 1 af 1 tf 1"]
+    # periodic restart / output files written from inside calc() (colvarsRestartFrequency of the engine; outputFreq of the biases)
+    L += ["restartfreq %d" % c.get("restartfreq", 0)]
+    L += ["prefix %s" % tag, "smp %s 1" % smp, "new", "log %s.log" % tag, "config EOF"] + [l.replace("@TAG@", tag) for l in rcase_config(c)] + ["EOF", "setupoutput", "show items 1 af 1 tf 1"] + \
+         (['scriptq cv colvar v%d set collect_gradient on' % c["collect_gradient"]] if c.get("collect_gradient") is not None else [])
     for st in c["steps"]:
         for v, f in st["flags"]:
             L += ['scriptq cv colvar v%d cvcflags "%s"' % (v, " ".join(map(str, f)))]
@@ -1133,6 +1188,14 @@ def derive_rich_footprints(sim, cases, d):
         for l in out:
             if l.startswith("FP "):
                 kind, R, W = parse_fp_line(l)
+                w = l.split()
+                if w[1] == "bias" and w[2].isdigit() and int(w[2]) < len(c["biases"]):
+                    b = c["biases"][int(w[2])]
+                    stateless = b["kind"] in ("harmonic", "walls", "linear") and not any("targetCenters" in x for x in b["lines"])
+                    if not stateless and "NOTREPEATABLE" not in l:
+                        # a bias with private state (hills, samples, moving centres): the perturbation probe cannot tell what it reads
+                        R = []
+                        nrep += 1
                 if "NOTREPEATABLE" in l:
                     nrep += 1
                 fps[kind].append((R, W))
@@ -1151,7 +1214,8 @@ def write_gen_footprints(derived, rich=()):
     for c, t, flags, comp, coll, bias in derived:
         if t is None:
             continue
-        vs = coq_list(["mkVar %d %s [] %s" % (x["tsf"], coq_list(["true" if f else "false" for f in flags[v]]), coq_list([coq_z(q) for q in x["coeff"]]))
+        vs = coq_list(["mkVar %d %s [] %s %s" % (x["tsf"], coq_list(["true" if f else "false" for f in flags[v]]), coq_list([coq_z(q) for q in x["coeff"]]),
+                                             coq_list([str(q) for q in x.get("exp", [])])) + (" true" if x.get("scripted") else " false")
                        for v, x in enumerate(c["vars"])])
         bs = coq_list(["mkBias %d %s %s %s" % (x["tsf"], coq_list([str(v) for v in x["vars"]]), coq_z(x["k"]), coq_list([coq_z(q) for q in x["centers"]]))
                        for x in c["biases"]])
@@ -1180,7 +1244,7 @@ def write_gen_footprints(derived, rich=()):
 def foot_model_line(c, t, flags):
     P = ["FOOT", str(t), str(len(c["vars"]))]
     for v, x in enumerate(c["vars"]):
-        P += [str(x["tsf"]), str(len(x["coeff"]))] + [str(int(f)) for f in flags[v]] + [str(q) for q in x["coeff"]]
+        P += [str(x["tsf"]), str(len(x["coeff"]))] + [str(int(f)) for f in flags[v]] + [str(q) for q in x["coeff"]] + [str(q) for q in x.get("exp", [1] * len(x["coeff"]))] + ["1" if x.get("scripted") else "0"]
     P += [str(len(c["biases"]))]
     for x in c["biases"]:
         P += [str(x["tsf"]), str(len(x["vars"]))] + [str(v) for v in x["vars"]] + [str(x["k"])] + [str(q) for q in x["centers"]]
@@ -1258,6 +1322,58 @@ def footprint_oracle(run, model, derived, rich):
                                       {"kind": "footprint", "scenario": scen})
 
 
+BIAS_KINDS = [
+    ("KHarmonic", ["harmonic {", "  name b", "  colvars v0", "  centers 1.0", "  forceConstant 2.0", "}"]),
+    ("KWalls", ["harmonicWalls {", "  name b", "  colvars v0", "  lowerWalls 1.0", "  upperWalls 5.0", "  forceConstant 2.0", "}"]),
+    ("KLinear", ["linear {", "  name b", "  colvars v0", "  centers 1.0", "  forceConstant 0.5", "}"]),
+    ("KHistogram", ["histogram {", "  name b", "  colvars v0", "}"]),
+    ("KAbmd", ["abmd {", "  name b", "  colvars v0", "  forceConstant 1.0", "  stoppingValue 5.0", "}"]),
+    ("KAlb", ["alb {", "  name b", "  colvars v0", "  centers 2.0", "  updateFrequency 4", "}"]),
+    ("KOpes", ["opes_metad {", "  name b", "  colvars v0", "  newHillFrequency 2", "  barrier 10.0", "  gaussianSigma 0.3", "}"]),
+    ("(KMeta false 0)", ["metadynamics {", "  name b", "  colvars v0", "  hillWeight 0.25", "  hillWidth 2.0", "  newHillFrequency 2", "}"]),
+    ("(KMeta true 1)", ["metadynamics {", "  name b", "  colvars v0", "  hillWeight 0.25", "  hillWidth 2.0", "  newHillFrequency 2",
+                        "  multipleReplicas on", "  replicaID rep1", "  replicasRegistry K.registry.txt", "  replicaUpdateFrequency 1", "}"]),
+    ("(KMeta true 3)", ["metadynamics {", "  name b", "  colvars v0", "  hillWeight 0.25", "  hillWidth 2.0", "  newHillFrequency 2",
+                        "  multipleReplicas on", "  replicaID rep1", "  replicasRegistry K.registry.txt", "  replicaUpdateFrequency 3", "}"]),
+    ("(KAbf 0)", ["abf {", "  name b", "  colvars v0", "  fullSamples 2", "  historyFreq 0", "}"]),
+    ("(KAbf 4)", ["abf {", "  name b", "  colvars v0", "  fullSamples 2", "  historyFreq 0", "  shared on", "  sharedFreq 4", "  outputFreq 8", "}"]),
+]
+
+
+def derive_bias_kinds(sim, d):
+    """for every bias kind the simulator can configure: (Coq term of the kind, replica_share_freq() printed by the binary,
+    whether the module called the parallel bias loop with that bias alone under smp cvcs)"""
+    rows = []
+    for term, blk in BIAS_KINDS:
+        open(os.path.join(d, "K.registry.txt"), "w").close()
+        scen = ["natoms 4", "temperature 300", "prefix K", "smp perm 2", "new", "config EOF", "colvar {", "  name v0", "  lowerBoundary 0.0", "  upperBoundary 16.0",
+                "  width 0.5", "  distance {", "    group1 { atomNumbers 1 2 }", "    group2 { atomNumbers 3 4 }", "  }", "}"] + blk + \
+               ["EOF", "setupoutput", "show items 1", "sharefreq", "pos 1 0 0 0", "pos 2 1 0 0", "pos 3 0 2 0", "pos 4 0 2 3", "step", "endcase 0"]
+        rc, out, err = run_batch(sim, scen, d, timeout=120)
+        sf = [l.split() for l in out if l.startswith("SHAREFREQ")]
+        if not any(l.startswith("CONFIG err=ok") for l in out) or len(sf) != 1 or not any(l.startswith("STEP") for l in out):
+            rows.append((term, None, None, [l for l in out if l.startswith("CONFIG")]))
+            continue
+        rows.append((term, int(sf[0][3]), any(l.startswith("BITEMS") for l in out), sf[0][2]))
+        for f in os.listdir(d):
+            if f.startswith("K."):
+                os.remove(os.path.join(d, f))
+    return rows
+
+
+def write_gen_bias_kinds(rows):
+    L = ["(* GENERATED by props/C12/check.py from the rebuilt binary (c12sim `sharefreq`, observed bias loop); do not edit. *)",
+         "From Coq Require Import List Bool.", "From CV Require Import C12.SmpModel.", "Import ListNotations.", "",
+         "Definition gen_bias_kinds : list (bias_kind * nat * bool) := ["]
+    L.append(";\n".join("  (%s, %d, %s)" % (t, f, "true" if par else "false") for t, f, par, _ in rows if f is not None))
+    L.append("].")
+    txt = "\n".join(L) + "\n"
+    p = os.path.join(V.COQ, "Gen", "GenBiasC12.v")
+    os.makedirs(os.path.dirname(p), exist_ok=True)
+    if not os.path.exists(p) or open(p).read() != txt:
+        open(p, "w").write(txt)
+
+
 def probe_cases(r_cases):
     return witness_tcases() + load_corpus() + [c for c in r_cases if not has_error_step(c)][:8]
 
@@ -1269,6 +1385,7 @@ def presetup():
     d = V.scratch("C12p")
     tcs = [gen_tcase(r, k) for k in range(12)]
     write_gen_footprints(derive_footprints(sim, probe_cases(tcs), d), derive_rich_footprints(sim, [gen_rcase(r, k) for k in range(4)], d))
+    write_gen_bias_kinds(derive_bias_kinds(sim, d))
     V.coq_project()
 
 
@@ -1368,6 +1485,20 @@ def check(run):
         derived = derive_footprints(sim0, probe_cases(gen), d)
         rich = derive_rich_footprints(sim0, rc[:6 if quick else 60], d)
         nprobe = write_gen_footprints(derived, rich)
+        kinds = derive_bias_kinds(sim0, d)
+        write_gen_bias_kinds(kinds)
+        # python re-statement of the model's table, so that a difference names the kind
+        for term, f, par, typ in kinds:
+            run.dist("bias kinds: share frequency read from the binary")
+            if f is None:
+                run.mismatch("bias-kinds", term, typ, "configuration accepted")
+                continue
+            m = re.match(r"\(KMeta true (\d+)\)|\(KAbf (\d+)\)", term)
+            want = int(m.group(1) or m.group(2)) if m else 0
+            if f != want or par != (want == 0):
+                run.violation("bias-loop:main-thread-decision:" + typ,
+                              "bias kind %s (%s): replica_share_freq() = %d and the parallel bias loop was %s; the model's table has %d / %s" % (
+                                  term, typ, f, "taken" if par else "not taken", want, "taken" if want == 0 else "not taken"), {"kind": "biaskind", "term": term})
         run.dist("footprints: rich probes (independence only)", len(rich))
         run.dist("footprints: rich items probed", sum(len(x[1]) + len(x[2]) + len(x[3]) for x in rich))
         run.dist("footprints: rich items that do not repeat (writes only)", sum(x[4] for x in rich))
